@@ -81,7 +81,7 @@ namespace c09
         static std::vector<T> gen(kit::Rng &r, GenCfg &c)
         {
             size_t n = r.chance(1, 6) ? 0 : r.below(c.max_elems + 1);
-            if (c.big && sizeof(T) == 1 && std::is_arithmetic<T>::value && r.chance(1, 3)) { n = r.chance(1, 2) ? 65535 : 256 + r.below(65000); c.big = false; }
+            if (c.big && std::is_arithmetic<T>::value && r.chance(1, 2)) { n = r.chance(1, 2) ? 65535 : 256 + r.below(65000); c.big = false; }
             std::vector<T> v;
             c.depth++;
             for (size_t i = 0; i < n; i++) v.push_back(Ref<T>::gen(r, c));
@@ -210,7 +210,7 @@ namespace c09
     {
         std::string encoded;             // what the real writer produced for the whole stream
         std::vector<size_t> boundaries;  // offset after each value
-        bool has_container = false, empty_container = false, len_65535 = false, nested3 = false, nontrivial_elem = false;
+        bool has_container = false, empty_container = false, len_65535 = false, nested3 = false, nontrivial_elem = false, payload_64k = false;
     };
 
     // stack scribbling: makes "decoded value depends on uninitialised memory" deterministic and visible
